@@ -11,6 +11,7 @@ import (
 	"fmt"
 	"regexp"
 	"strings"
+	"unicode"
 
 	domainmatcher "github.com/IrineSistiana/mosproxy/internal/domain_matcher"
 	"github.com/IrineSistiana/mosproxy/verif/internal/gen"
@@ -216,6 +217,14 @@ func c11FixEdges(labels [][]byte) {
 	if c11IsSpace(last[len(last)-1]) {
 		last[len(last)-1] = 'q'
 	}
+	// the loader trims Unicode white space too (bytes.TrimSpace): U+0085, U+00A0, U+2000.. as UTF-8
+	// sequences at either end of the line belong to the file syntax, not to the entry
+	for len(bytes.TrimLeftFunc(labels[0], unicode.IsSpace)) != len(labels[0]) {
+		labels[0][0] = 'q'
+	}
+	for len(bytes.TrimRightFunc(last, unicode.IsSpace)) != len(last) {
+		last[len(last)-1] = 'q'
+	}
 }
 
 func c11Upper(r *gen.R, labels [][]byte) [][]byte {
@@ -275,7 +284,7 @@ type c11Case struct {
 }
 
 func runC11(c *Ctx) {
-	nLists := c.N(3000, 150000)
+	nLists := c.N(3000, 40000)
 	parallelFor(nLists, 0, func() bool { return c.ViolationCount() >= 20 }, func(idx int) {
 		r := gen.New(c.Seed, "c11", idx)
 		c11One(c, r, idx)
